@@ -673,6 +673,17 @@ class FixedScaleNumericValue(NumericValue):
     def raw_to_value(cls, raw):
         return cls.scaling_factor * super().raw_to_value(raw)
 
+    @classmethod
+    def value_to_raw(cls, value):
+        if isinstance(value, str):
+            # 'MASK' and 'TMASK' are handled by NumericValue
+            return super().value_to_raw(value)
+        quotient, remainder = divmod(value, cls.scaling_factor)
+        if remainder:
+            raise ValueError(
+                f"value must be a multiple of {cls.scaling_factor}")
+        return super().value_to_raw(int(quotient))
+
 
 class StringValue(MemoryValue):
     """An ASCII string, possibly NULL terminated
@@ -723,6 +734,12 @@ class TemperatureValue(NumericValue):
     @classmethod
     def raw_to_value(cls, raw):
         return int.from_bytes(raw, 'big') - cls.offset
+
+    @classmethod
+    def value_to_raw(cls, value):
+        if isinstance(value, int):
+            value = value + cls.offset
+        return super().value_to_raw(value)
 
 
 class VersionNumberValue(NumericValue):
